@@ -13,14 +13,13 @@ From RU Require Import Base.Prelude Base.Utf8 Base.Utf8Facts Base.Outcome_c15 Mo
   Model.PercentEncoding Model.HostT Model.Host Model.UrlRecord Model.Parser Model.Setters Model.WF Model.FormUrlencoded
   Model.QueryPairs
   Proofs.ListN Proofs.C02_Reach Proofs.C02_AuthParts Proofs.C02_Hist Proofs.C02_Canon Proofs.C02_ReachPartial
-  Proofs.C02_Reach3 Proofs.C02_SetHostCanon Proofs.C02_Reach4 Proofs.C09_Host Proofs.C16_RT6Model Proofs.C02_HistInst.
+  Proofs.C02_Reach3 Proofs.C02_SetHostCanon Proofs.C02_Reach4 Proofs.C03_WF Proofs.C09_Host Proofs.C16_RT6Model Proofs.C02_HistInst.
 Open Scope N_scope.
 Open Scope list_scope.
 
 (* Url::username().is_empty() and Url::password().is_some(), read off the record without the debug assertions *)
 Definition uname_empty (u : url) : bool := negb (has_authority_b u && (scheme_end u + 3 <? username_end u)).
-Definition has_password_b (u : url) : bool :=
-  has_authority_b u && match nnth (ser u) (username_end u) with Some c => c =? 58 | None => false end.
+(* has_password_b (Proofs/C03_WF.v) = has_authority && username_end <> len && the byte at username_end is ':' *)
 
 Definition Known_F_C02_10 (u : url) (o : op) : bool :=
   match o with
